@@ -187,13 +187,16 @@ def firconv (lx lh : Int) : G (List Int) := do
     accessRange "h[nh - k - 1]" 0 (lh - 1) lh
   pure [nr]
 
-/-- `FirFilter(h).process(x)`, `lh ≥ 1` (the delay line always holds `lh - 1` samples) -/
+/-- `FirFilter(h).process(x)`, `lh ≥ 1` (the delay line always holds `lh - 1` samples; a one-tap filter hands
+over no history: `if (nd > 0)`, /repo cf8331c) -/
 def fir (lh lx : Int) : G (List Int) := do
   let nd := lh - 1
   let nx := nd + lx
   let r ← firconv nx lh
-  let _ ← slice nx (nx - nd) nx 1
-  pure r
+  if nd > 0 then do
+    let _ ← slice nx (nx - nd) nx 1
+    pure r
+  else pure r
 
 /-- one `FftFilter::process` call per frame; `nx` = fill level `_nx` of the block buffer carried across calls -/
 def fftfiltGo (lh fftLen blk : Int) (nx : Int) : List Int → G (List Int)
